@@ -32,7 +32,9 @@ EqN(a, b) == a = b
 \* Numeric commands ("Strings and numbers": typed numbers or number-like strings)
 Numeric(name, args) ==
   LET ns == NumArgs(args) IN
-  IF AnyUnk(ns) THEN PErr(OOM("string used as a number is not a canonical decimal"))
+  \* the number of arguments is checked before their types
+  IF (name \in {"!=", "%"} /\ Len(args) # 2) \/ (name = "-" /\ Len(args) = 0) THEN PErr(CArity)
+  ELSE IF AnyUnk(ns) THEN PErr(OOM("string used as a number is not a canonical decimal"))
   ELSE IF AnyNotNum(ns) THEN PErr(CType)
   ELSE CASE name = "+" -> NumResult(SumFrom(ns, 1))
          [] name = "-" -> IF Len(ns) = 0 THEN PErr(CArity)
